@@ -6,7 +6,9 @@ PropsSmall == { P("nan", 0), P("pinf", 0), P("num", -1), P("num", 1), P("num", 3
 LayA == << <<>>, <<2>> >>          \* scalar + vector of 2
 LayB == << <<3>> >>                \* one vector of 3
 LayC == << <<2, 2>>, <<>> >>       \* 2x2 matrix + scalar
+LayD == << <<1>>, <<>>, <<3>> >>   \* one-element array + scalar + vector of 3
 Lay1 == {LayA}
 Lay2 == {LayA, LayB}
 Lay3 == {LayA, LayB, LayC}
+Lay4 == {LayA, LayD}
 =============================================================================
